@@ -3,6 +3,7 @@ package main
 import (
 	"fmt"
 	"go/types"
+	"regexp"
 	"strings"
 
 	"golang.org/x/tools/go/ssa"
@@ -635,4 +636,53 @@ func onlyCalledFromClosure(p *Program, fn *ssa.Function, owner string, depth int
 		}
 	}
 	return n > 0
+}
+
+// C13-R7b EVERY-DBI-SWEPT: one pass visits every DBI that may hold deletion
+// markers. An iteration of the DBI loop that goes on to the next name without
+// having started a sweep transaction is justified only by the one documented
+// skip: non-native mode and a name without the private prefix (or names that
+// were pre-filtered by that same test). Any other skip — a remembered "nothing to
+// do here" from an earlier pass, an entry count, a size threshold — leaves the
+// expired markers of that DBI in place for as long as the condition holds: a
+// marker written over a live entry changes neither the count nor the size.
+func ruleEveryDBISwept(c *Check, rule string) {
+	collRe := regexp.MustCompile(`len\((` + collLocalNames + `)\)|next\(range\((` + collLocalNames + `)\)@[\w~]+\)@[\w~]+#0`)
+	fn, paths := c.walkFn(rule, fnSweep, WalkConfig{Memo: true,
+		KeepEvent: func(e *Event) bool {
+			return e.Kind == "ret" || e.Kind == "call" && (strings.Contains(e.Callee, "lmdb.Env).Update") || strings.HasSuffix(e.Callee, "lo.Filter"))
+		},
+		KeepAtom: func(a Atom) bool {
+			s := a.String()
+			return collRe.MatchString(s) || strings.Contains(s, "schemaTracksChanges") || strings.Contains(s, "HasPrefix") || strings.Contains(s, "lo.Filter@")
+		}})
+	if paths == nil {
+		return
+	}
+	nIter, nSkip, bad := 0, 0, 0
+	for _, it := range completedIterations(fn, paths, collRe) {
+		p, at := it.p, it.at
+		nIter++
+		swept := false
+		for _, u := range callsOf(p, "(*lmdb.Env).Update", "(*lmdb.Env).Update$bound") {
+			if eventIndex(p, u) > at {
+				swept = true
+			}
+		}
+		if swept {
+			continue
+		}
+		nSkip++
+		native, f1 := condTruth(p, "schemaTracksChanges", -1)
+		priv, f2 := condTruth(p, "strings.HasPrefix(", -1)
+		if f1 && !native && f2 && !priv {
+			continue
+		}
+		bad++
+		c.Bad(rule, fnSweep+"/every-dbi-swept", "an iteration of the DBI loop moves on to the next DBI without a sweep transaction although the DBI is not an application DBI of a non-native schema: its expired deletion markers stay until the skip condition changes", c.pathPos(p), describe(c, p))
+	}
+	if bad == 0 {
+		c.Ok(rule, fnSweep+"/every-dbi-swept", fmt.Sprintf("%d path classes complete an iteration of the DBI loop; the %d that start no sweep transaction have schemaTracksChanges == false and a name without the private prefix", nIter, nSkip), c.P.Pos(fn.Pos()))
+	}
+	c.Floor(rule, nIter, 2, "completed iterations of the sweeper's DBI loop")
 }
